@@ -19,5 +19,6 @@ CONSTANTS
 INIT Init
 NEXT Next
 SYMMETRY Sym
+VIEW MCView
 INVARIANTS TypeOK CurInStreams DispatchInvs InvocationInvs DeliveryInvs QuiescentComplete
 CHECK_DEADLOCK FALSE
